@@ -1291,6 +1291,17 @@ func runC09(c *Ctx) {
 	if want("tables") {
 		c09Tables(c)
 	}
+	if want("tagfilter") {
+		// deterministic: every pair of unit spellings as a two-bound range (unit table drift between
+		// the model's scaleUnitTable and internal/measurement shows up on every seed)
+		us := []string{"", "b", "B", "kb", "kB", "KB", "mb", "MB", "gb", "tb", "pb", "bytes", "ns", "us", "ms", "s", "sec", "seconds", "hr", "hrs", "hour", "hours",
+			"gcu", "GCU", "nanogcu", "microgcu", "milligcu", "kilogcu", "megagcu", "gigagcu", "teragcu", "petagcu", "count", "auto", "minimum", "x", "ss"}
+		for _, u1 := range us {
+			for _, u2 := range us {
+				c09Tagfilter(c, "1"+u1+":2"+u2)
+			}
+		}
+	}
 	for i := 0; i < 5000*scale && want("tagfilter"); i++ {
 		c09Tagfilter(c, c09TagValue(rt, i%6 == 0))
 	}
